@@ -54,6 +54,9 @@ func (e *env) classify(c *snapCase, sr *snapResult) (nontrivial bool) {
 		case !present:
 			r.Dist["snap:level-absent(collapsed)"]++
 			collapse = true
+		case len(polys) == 0:
+			r.Dist["snap:level-mapped-to-empty-list"]++ // the oracles report it
+			collapse = true
 		case len(polys) > 1:
 			r.Dist["snap:several-polygons(split or points/lines)"]++
 			collapse = true
